@@ -46,7 +46,8 @@ def layouts(draw, kind, spec):
             "pad": draw(st.booleans()), "trailing_newline": draw(st.booleans())}
 
 
-WIDE = list("abcdefghijklmnopqrstuvwxyz0123456789")
+# letters, digits and a few \w characters outside ASCII (some of them change under Unicode compatibility normalisation: µ ª ϕ ϵ ²)
+WIDE = list("abcdefghijklmnopqrstuvwxyz0123456789") + ["µ", "ª", "ϕ", "ϵ", "²", "ß", "é", "λ"]
 
 
 @st.composite
